@@ -284,12 +284,14 @@ func iosRawBlocksSpace(name string, lines []string, nLines, maxLen int) *space {
 	}
 	nb := int64(len(tg))
 	intf := iosIntf("Ethernet0", "10.0.0.1", "ip access-group inside_in in")
+	// the device ACL carries a generated name (as after an earlier approve)
+	devIntf := iosIntf("Ethernet0", "10.0.0.1", "ip access-group inside_in-DRC-0 in")
 	sp := &space{name: name, model: "IOS", n: int64(len(sq)) * nb, acl: "inside_in"}
 	sp.gen = func(i int64) (core.Files, core.Files) {
 		sa, sb := sq[i/nb], tg[i%nb]
 		raw := iosACLBody("inside_in", sb[:1], lines, false) + iosACLBody("inside_in", sb[1:2], lines, false) +
 			"interface Ethernet0\n ip access-group inside_in in\n"
-		return core.Files{Main: iosACLBody("inside_in", sa, lines, false) + intf},
+		return core.Files{Main: iosACLBody("inside_in-DRC-0", sa, lines, false) + devIntf},
 			core.Files{Main: iosACLBody("inside_in", sb[2:], lines, false) + intf, Raw: raw}
 	}
 	sp.eff = func(b core.Files) string {
